@@ -22,7 +22,7 @@ from .common import FILE, SOCKETS, loc, need
 
 MIN_OBLIGATIONS = 45
 TRANSIENT_SOCK = ('EAGAIN', 'EWOULDBLOCK', 'EINTR', 'ENOBUFS')
-TRANSIENT_FILE = ('EAGAIN', 'EWOULDBLOCK', 'EINTR')
+TRANSIENT_FILE = ('EAGAIN', 'EWOULDBLOCK', 'EINTR', 'ENOBUFS')       # (the property names ENOBUFS for all three kinds of endpoint)
 FATAL = ('EPIPE', 'ECONNRESET', 'ENOTCONN', 'EBADF')
 ALIAS = {'EAGAIN': 'EWOULDBLOCK', 'EWOULDBLOCK': 'EWOULDBLOCK'}
 
@@ -174,6 +174,16 @@ def endpoint(repo, chk, on_write):
     app = [n for n in gw.nodes if n.kind == 'stmt' and any(r == buf and [src(a) for a in c.args] == [dv] for r, c in pat.method_calls(n.ast, 'append'))]
     gone_w = pat.test_edge(lambda tt, pol: (len(wh.params) > 2 and pat.fact_matches(pat.compare_fact(tt, pol), wh.params[1], ('not in',), 'self._clients')) or
                            (len(wh.params) == 2 and ((pol == 'F' and src(tt) == 'self._connected') or (pol == 'T' and src(tt) == 'not self._connected'))))
+    dead_sets = getattr(wr, 'dead_sets', set())
+    dead_w = pat.test_edge(lambda tt, pol: len(wh.params) > 2 and any(pat.fact_matches(pat.compare_fact(tt, pol), wh.params[1], ('in',), ds) for ds in dead_sets))
+    alive_w = pat.test_edge(lambda tt, pol: len(wh.params) > 2 and any(pat.fact_matches(pat.compare_fact(tt, pol), wh.params[1], ('not in',), ds) for ds in dead_sets))
+    gone_w0 = gone_w
+    gone_w = lambda e2: gone_w0(e2) or dead_w(e2)  # noqa: E731
+    if dead_sets:
+        for a_ in app:
+            q = pat.guarded_by(gw, a_, alive_w)
+            chk.ob('b', wh.ref, 'write() accepts no payload for a connection whose write side failed for good (what the peer gets stays a prefix of what was written)',
+                   q is None, loc(wh, a_.ast), path=pat.path_lines(q) if q else None, discr='write-refuses-write-dead')
     p = Q.escapes(gw, [gw.entry], lambda n: n in app, avoid_edge=gone_w)
     chk.ob('b', wh.ref, 'write() appends the payload at the end of the buffer on every path (a connection that is gone is ignored)', p is None and bool(app), loc(wh, wh.node),
            path=pat.path_lines(p) if p else None, discr='append')
@@ -187,10 +197,28 @@ def endpoint(repo, chk, on_write):
     addw = [n for n in gw.nodes if n.kind == 'stmt' and any(pat.expand_alias(wh, n, r) == 'self._poller' for r, _c in pat.method_calls(n.ast, 'addWriter'))]
     p = Q.escapes(gw, [gw.entry], lambda n: n in addw, avoid_edge=pat.test_edge(
         lambda tt, pol: (pol == 'T' and 'isWriting' in src(tt)) or (is_file and pat.fact_matches(pat.compare_fact(tt, pol), 'self._poller', ('is', '=='), 'None'))
+        or (is_file and pat.fact_matches(pat.compare_fact(tt, pol), 'self._fd', ('is', '=='), 'None'))
         or (len(wh.params) > 2 and pat.fact_matches(pat.compare_fact(tt, pol), wh.params[1], ('not in',), 'self._clients'))
+        or (len(wh.params) > 2 and any(pat.fact_matches(pat.compare_fact(tt, pol), wh.params[1], ('in',), ds) for ds in dead_sets))
         or (len(wh.params) == 2 and pol == 'F' and src(tt) == 'self._connected')))
     chk.ob('d', wh.ref, 'write() registers writer interest unless it is already registered', p is None and bool(addw), loc(wh, wh.node),
            path=pat.path_lines(p) if p else None, discr='interest-on-write')
+    if is_file:
+        # a File may be written to before it is open (the poller is there, the descriptor is not: registering `None` for writing makes the poller drop or
+        # disconnect it): the payload then waits in the buffer, and opening the file asks for the descriptor to be watched
+        for a_ in addw:
+            q = pat.guarded_by(gw, a_, pat.test_edge(lambda tt, pol: pat.fact_matches(pat.compare_fact(tt, pol), 'self._fd', ('is not', '!='), 'None')))
+            chk.ob('d', wh.ref, 'write() asks for the descriptor to be watched only when there is a descriptor (the file is open)', q is None, loc(wh, a_.ast),
+                   path=pat.path_lines(q) if q else None, discr='interest-needs-descriptor')
+        op = cls.lookup('_on_open')
+        need(op, f'C11.d: {cls.ref} has no _on_open')
+        chk.touch(op)
+        go = op.cfg()
+        opens = [n for n in go.nodes if n.kind == 'stmt' and 'self' in pat.stores_attr(n.ast, '_fd')]
+        addo = [n for n in go.nodes if n.kind == 'stmt' and any(r == 'self._poller' for r, _c in pat.method_calls(n.ast, 'addWriter'))]
+        po = Q.escapes(go, opens, lambda n: n in addo, avoid_edge=pat.test_edge(lambda tt, pol: buffer_fact(op, tt, pol, bufset) == 'empty'), exc=()) if opens else None
+        chk.ob('d', op.ref, 'opening the file registers writer interest when payloads were written before it was open', po is None and bool(addo) and bool(opens),
+               loc(op, op.node), path=pat.path_lines(po) if po else None, discr='interest-on-open')
     # drain path in on_write: buffer empty ⇒ deferred close performed, else interest removed
     empty_edges = [e for n in g.nodes if n.kind == 'test' for e in n.succ if e.kind in ('T', 'F') and buffer_fact(on_write, n.ast, e.kind, bufset) == 'empty']
     closes = [n for n in g.nodes if n.kind == 'stmt' and any(r == 'self' for r, _c in pat.method_calls(n.ast, '_close'))]
@@ -378,7 +406,14 @@ def rule_a(chk, wr, buf, is_file):
                 requeue_tail.append((n, src(a.slice.lower)))
     closes = [n for n in g.nodes if n.kind == 'stmt' and any(r == 'self' for r, _c in pat.method_calls(n.ast, '_close'))]
     # giving up the write side only (everything still queued is dropped, the read side ends the connection) also guarantees that nothing follows the lost payload
-    closes += [n for n in g.nodes if n.kind == 'stmt' and any(r == buf for r, _c in pat.method_calls(n.ast, 'clear'))]
+    # … provided the connection is recorded as write-dead on the same path (and write() refuses recorded connections, checked with the producers): clearing
+    # the buffer alone does not keep a later write from being sent after the lost payload
+    sk_ = wr.params[1] if len(wr.params) > 2 else None
+    marks = [n for n in g.nodes if n.kind == 'stmt' and sk_ is not None and any(r.startswith('self.') and [src(a_) for a_ in c.args] == [sk_] for r, c in pat.method_calls(n.ast, 'add'))]
+    wr.dead_sets = {r for n in marks for r, c in pat.method_calls(n.ast, 'add') if r.startswith('self.')}
+    clears = [n for n in g.nodes if n.kind == 'stmt' and any(r == buf for r, _c in pat.method_calls(n.ast, 'clear'))]
+    closes += [c_ for c_ in clears if marks and (Q.escapes(g, [c_], lambda n: n in marks, exc=()) is None or
+                                                 Q.reachable_without(g, c_, avoid_node=lambda n: n in marks) is None)]
     errors = [n for n in g.nodes if n.kind == 'stmt' and pat.fires(n.ast, 'error')]
     sends = [n for n in g.nodes if n.kind == 'stmt' and isinstance(n.ast, ast.Assign) and any(
         (call_name(c) or '').split('.')[-1] in ('send', 'write', 'fd_write') and c.args for c in calls_in(n.ast))]
